@@ -15,9 +15,14 @@ MODES = ["1", "L", "LA", "P", "PA", "RGB", "RGBA", "CMYK"]
 
 
 def tmpdir(name: str) -> Path:
-    d = TMP / name
+    """A scratch directory private to this process (removed at exit)."""
+    import atexit
+    import os
+
+    d = TMP / f"{name}-{os.getpid()}"
     shutil.rmtree(d, ignore_errors=True)
     d.mkdir(parents=True, exist_ok=True)
+    atexit.register(shutil.rmtree, d, ignore_errors=True)
     return d
 
 
